@@ -308,6 +308,17 @@ Proof.
   split; [apply admissible_b_sound; vm_compute; reflexivity|vm_compute; reflexivity].
 Qed.
 
+
+(* ------------------------------------------------------------------ tie to the source by translation *)
+(** The Rust functions below are translated to Gallina from the repository's CURRENT sources on every run
+    (tools/rs2coq.py -> theories/Gen.v); they equal the model's functions for all arguments, so the theorems above
+    hold for what the code says now. A change of one of these functions that is not an equivalent rewrite breaks the
+    proof obligation here. *)
+From Hoot Require Import Gen.
+From Hoot.proofs Require Import Gen_equiv.
+Theorem c09_code_need_request_body : forall m, gen_need_request_body m = need_request_body m.
+Proof. exact gen_need_request_body_eq. Qed.
+
 Print Assumptions c09_new_total.
 Print Assumptions c09_new.
 Print Assumptions c09_header.
@@ -338,3 +349,4 @@ Print Assumptions c09_known_refuted.
 Print Assumptions c09_history_nonvacuous.
 Print Assumptions c09_redirect_nonvacuous.
 Print Assumptions c09_premature_nonvacuous.
+Print Assumptions c09_code_need_request_body.
